@@ -42,6 +42,25 @@ def refusals (c : Cfg) : St → List Ev → List String → List String
     | none => refusals c (apply c s e) es acc
     | some r => refusals c (apply c s e) es (r :: acc)
 
+/-- Does the history show the stall "a partition is never fetched again after its leader moved"? Some partition `p` whose
+leader was moved (`Mv:p:_`) has an acknowledged record that no poll returned, at or beyond the offset of the LAST fetch
+request that named `p` on the wire (`Fq:conn:p:off:…`), and at least 20 polls ended after that request. -/
+def stalledAfterMove (ets : List String) : Bool :=
+  let toks := ets.map (·.splitOn ":")
+  let moved := toks.filterMap (fun t => match t with | ["Mv", p, _] => p.toNat? | _ => none)
+  let returned := toks.filterMap (fun t => match t with | ["V", p, o, _, _] => (do some ((← p.toNat?), (← o.toNat?))) | _ => none)
+  let produced := toks.filterMap (fun t => match t with | ["D", _, p, o, _] => (do some ((← p.toNat?), (← o.toNat?))) | _ => none)
+  moved.eraseDups.any fun p =>
+    -- position and offset of the last wire fetch naming p
+    let idx := (toks.zipIdx.filterMap (fun (t, i) => match t with
+      | ["Fq", _, q, o, _, _] => if q.toNat? == some p then o.toNat?.map (fun o => (i, o)) else none
+      | _ => none)).getLast?
+    match idx with
+    | none => false
+    | some (i, off) =>
+      let pollsAfter := ((toks.drop i).filter (· == ["Pe"])).length
+      decide (pollsAfter ≥ 20) && produced.any (fun d => d.1 == p && decide (d.2 ≥ off) && !returned.contains d)
+
 def handle (prop : String) (impl : String) : String :=
   if impl.startsWith "PANIC" || impl.startsWith "HANG" || impl.startsWith "ERR" then
     s!"* | 0:{prop}.scenario-{(impl.splitOn ":").head!.toLower} | 1"
@@ -63,6 +82,10 @@ def handle (prop : String) (impl : String) : String :=
       let nt := boolStr (decide (nRet ≥ 10) && (decide (nTxn > 0) || !c.committed))
       match rs with
       | [] => s!"* | 1 | {nt}"
-      | r :: _ => s!"* | 0:{r} | {nt}"
+      | r :: _ =>
+        -- the completeness clause, told apart by how it fails: a stall after a leader move has its own key
+        let r := if (r == "C05.committed-record-never-returned" || r == "C04.record-never-returned") && stalledAfterMove ets
+                 then "C04.partition-never-fetched-again-after-leader-move" else r
+        s!"* | 0:{r} | {nt}"
 
 end Driver.ConsumerHist
